@@ -1,4 +1,6 @@
 import H2V.Lemmas.ConnHttpPMain
+import H2V.Lemmas.ConnHttpPSend
+import H2V.Lemmas.ConnHttpPCl
 import H2V.Model.ConnDriver
 /-
   C13 (ConnHttpP), part 13 — witnesses: concrete wire bytes through `decode_frame` and the stream layer of
@@ -87,6 +89,93 @@ theorem trailers_with_pseudo_counterexample :
     ((hdrOf rd0 okResp).bind fun h => queuesAfter (cli1.recvHeaders h).1 (decodeFrame rd0 okResp).1 statusTrailers)
       = some [[.headers [50, 48, 48] [], .trailers []]] ∧
     Spec.Http.trailers (fieldsOf (decodeFrame rd0 okResp).1 statusTrailers) = ["pseudo-in-trailers"] := by
+  decide +kernel
+
+
+/-! ### N1 (repaired): the `malformed` flag survives a fragment boundary -/
+
+/-- HEADERS(END_STREAM, no END_HEADERS)[GET http://a/, `connection: close`, `00 01`] — the fragment ends
+    inside the next field — followed by CONTINUATION(END_HEADERS)[`78 01 79`] (`x: y`) -/
+def splitMalformed1 : Bytes :=
+  [0, 0, 26, 1, 1, 0, 0, 0, 1, 0x82, 0x86, 0x84, 0x41, 1, 97,
+   0, 10, 99, 111, 110, 110, 101, 99, 116, 105, 111, 110, 5, 99, 108, 111, 115, 101, 0, 1]
+def splitMalformed2 : Bytes := [0, 0, 3, 9, 4, 0, 0, 0, 1, 120, 1, 121]
+
+def dfErr : DF → Option RErr
+  | .err e => some e
+  | _ => none
+
+/-- before the repair of N1 this block was delivered (without the `connection` field); now the final
+    `load` answers `MalformedMessage`: stream error PROTOCOL_ERROR -/
+theorem split_malformed_block_rejected :
+    dfErr (decodeFrame (decodeFrame rd0 splitMalformed1).1 splitMalformed2).2 = some (.reset 1 CodecRead.PROTOCOL_ERROR) ∧
+    Spec.Http.common (ghostNext (ghostNext [] rd0 splitMalformed1) (decodeFrame rd0 splitMalformed1).1 splitMalformed2)
+      = ["connection-specific-field"] := by decide +kernel
+
+/-! ### N6: trailers larger than SETTINGS_MAX_HEADER_LIST_SIZE are delivered truncated -/
+
+def rd200 : Reader := rd0.setMaxHeaderListSize 200
+
+/-- POST http://a/ (no END_STREAM) -/
+def postFrame : Bytes := [0, 0, 6, 1, 4, 0, 0, 0, 1, 0x83, 0x86, 0x84, 0x41, 1, 97]
+
+/-- trailers `x-a: a…a` (20) and `x-b: b…b` (120): 55 + 155 octets against a limit of 200 -/
+def bigTrailers : Bytes :=
+  [0, 0, 151, 1, 5, 0, 0, 0, 1] ++ [0, 3, 120, 45, 97, 20] ++ List.replicate 20 97 ++
+    [0, 3, 120, 45, 98, 120] ++ List.replicate 120 98
+
+theorem oversize_trailers_truncated_counterexample :
+    ((hdrOf rd200 postFrame).bind fun h =>
+      (queuesAfter (srv0.recvHeaders h).1 (decodeFrame rd200 postFrame).1 bigTrailers).map fun q =>
+        q.map fun evs => evs.map fun ev => match ev with
+          | .trailers f => some (f.map (·.1))
+          | _ => none) = some [[none, some [[120, 45, 97]]]] ∧
+    (ghostNext [] (decodeFrame rd200 postFrame).1 bigTrailers).map (·.1) = [[120, 45, 97], [120, 45, 98]] := by
+  decide +kernel
+
+/-! ### content-length (N4) -/
+
+/-- POST http://a/ with `content-length: 5` and `content-length: 7`, no END_STREAM -/
+def twoClFrame : Bytes :=
+  [0, 0, 42, 1, 4, 0, 0, 0, 1, 0x83, 0x86, 0x84, 0x41, 1, 97,
+   0, 14, 99, 111, 110, 116, 101, 110, 116, 45, 108, 101, 110, 103, 116, 104, 1, 53,
+   0, 14, 99, 111, 110, 116, 101, 110, 116, 45, 108, 101, 110, 103, 116, 104, 1, 55]
+
+/-- N4a: two different content-length values: the reference calls the announcement unusable, the
+    model accepts the head, reads `5`, and 5 octets of DATA with END_STREAM end the body cleanly -/
+theorem two_content_lengths_counterexample :
+    Spec.Http.contentLength (fieldsOf rd0 twoClFrame) = some none ∧
+    ((hdrOf rd0 twoClFrame).map fun h =>
+      let s1 := (srv0.recvHeaders h).1
+      (clOf s1 0, (s1.recvRecvData 0 [104, 101, 108, 108, 111] true none).2.toOption)) =
+      some (some (.remaining 5), some ()) := by decide +kernel
+
+/-- POST http://a/ with an EMPTY `content-length` value, END_STREAM -/
+def emptyClFrame : Bytes :=
+  [0, 0, 23, 1, 5, 0, 0, 0, 1, 0x83, 0x86, 0x84, 0x41, 1, 97,
+   0, 14, 99, 111, 110, 116, 101, 110, 116, 45, 108, 101, 110, 103, 116, 104, 0]
+
+/-- N4b: an empty content-length value parses as 0 (`parse_u64("") = Ok(0)`): the request is delivered -/
+theorem empty_content_length_counterexample :
+    Spec.Http.contentLength (fieldsOf rd0 emptyClFrame) = some none ∧
+    parseU64 [] = some 0 ∧
+    ((queuesAfter srv0 rd0 emptyClFrame).map fun q => q.map (·.length)) = some [1] := by decide +kernel
+
+/-! ### send side (N5, F8) -/
+
+/-- N5: `te: trailers` followed by `te: gzip` passes `check_headers` (only the first value is looked at) -/
+theorem send_second_te_counterexample :
+    (Streams.checkHeaders [Conn.field "te" "trailers", Conn.field "te" "gzip"]).toOption = some () ∧
+    Spec.Http.common (wireFields [Conn.field "te" "trailers", Conn.field "te" "gzip"]) = ["te-not-trailers"] := by
+  decide +kernel
+
+/-- F8: the send side keeps no content-length ledger: a request announcing `content-length: 5` may
+    send 10 octets of DATA with END_STREAM (and, equally, end after 0) -/
+theorem send_body_beyond_content_length_counterexample :
+    let r := cli0.sendRequest false [Conn.field ":method" "POST", Conn.field ":scheme" "http",
+      Conn.field ":authority" "example.com", Conn.field ":path" "/", Conn.field "content-length" "5"] false none
+    r.2.toOption = some (0, false) ∧ (r.1.refSendData 0 10 true).2.toOption = some () ∧
+      (r.1.refSendData 0 0 true).2.toOption = some () := by
   decide +kernel
 
 end H2V.Lemmas.ConnHttpP
